@@ -437,6 +437,19 @@ func (n *Node) submit(pt *PoolTxn) error {
 			return fmt.Errorf("duplicate")
 		}
 	}
+	if w := n.w; w.cfg.Profile == "C09" || w.tape.Choose(8) == 0 {
+		var v1 []types.Transaction
+		var v2 []types.V2Transaction
+		if pt.V1 != nil {
+			v1 = append(v1, *pt.V1)
+		}
+		if pt.V2 != nil {
+			v2 = append(v2, *pt.V2)
+		}
+		_ = guard(func() {
+			w.checkPure(n.tip, v1, v2, fmt.Sprintf("%s transaction %s offered to node %d's pool", pt.Kind, short(pt.ID), n.idx))
+		})
+	}
 	ms := consensus.NewMidState(n.tip)
 	for _, q := range n.pool {
 		if err := n.validateInto(ms, q); err != nil {
